@@ -23,7 +23,8 @@ class World:
         self.pausedir = self.root / "pause"
         self.pausedir.mkdir()
         self.log = self.root / "events.ndjson"
-        self.total, self.owner, self.req = total, owner, req
+        self.total, self.owner, self.req = total, owner, dict(req)
+        self.req0 = dict(req)       # (a job submitted again may ask for another amount)
         self.procs = {}
         self.pids = {}
         self.problems = []
@@ -116,6 +117,21 @@ class World:
         self.emit("h.submit", job=j, p=self.owner[j])
         return self.cmd(self.owner[j], op="submit", job=j, count=self.req[j])
 
+    def resubmit(self, j, count):
+        """the job has ended and given its token back; it is submitted again (same name, hence same token file), asking for `count`"""
+        self.emit("h.resubmit", job=j, count=count)
+        self.req[j] = count
+        return self.submit(j)
+
+    def suspend(self, p):
+        """the scheduler process is not scheduled for a while (SIGSTOP): the events of the token directory queue up"""
+        self.emit("h.note", what=f"{p} suspended")
+        os.kill(self.pids[p], signal.SIGSTOP)
+
+    def resume(self, p):
+        self.emit("h.note", what=f"{p} resumed")
+        os.kill(self.pids[p], signal.SIGCONT)
+
     def acquire(self, j):
         return self.cmd(self.owner[j], op="acquire", job=j)
 
@@ -204,7 +220,7 @@ class World:
                     pass
         ev = self.events()
         shutil.rmtree(self.root, ignore_errors=True)
-        return {"wl": {"owner": self.owner, "req": self.req, "total": self.total}, "ev": ev, "problems": self.problems}
+        return {"wl": {"owner": self.owner, "req": self.req0, "total": self.total}, "ev": ev, "problems": self.problems}
 
 
 # ---------------------------------------------------------------- scenarios
@@ -425,6 +441,27 @@ def sc_enlarged_while_held():
     return w.close()
 
 
+def sc_larger_again():
+    """a job runs with one unit, ends, and comes back asking for three (same token file name) while another scheduler,
+    which had seen it hold one, is suspended; that scheduler then asks for two of the four units: refused"""
+    w = World(4, {"a": "p1", "b": "p2"}, {"a": 1, "b": 2})
+    w.start("p1"); w.start("p2")
+    w.submit("a"); w.acquire("a"); w.startjob("a")
+    w.wait_event(lambda r: r["e"] == "tok.evt.cached" and r.get("p") == "p2" and r.get("job") == "a", 5)
+    w.suspend("p2")
+    w.endjob("a"); w.release("a")
+    w.resubmit("a", 3); w.acquire("a"); w.startjob("a")
+    w.resume("p2")
+    w.quiescent()
+    w.submit("b")
+    r = w.acquire("b")
+    if r and r.get("acquired"):
+        w.startjob("b"); w.endjob("b"); w.release("b")
+    w.endjob("a"); w.release("a")
+    w.quiescent()
+    return w.close()
+
+
 def sc_info_torn():
     """the only scheduler dies while it rewrites token.info (the file is left empty: truncated, not yet written); the
     next scheduler declares the token again and uses it"""
@@ -443,7 +480,7 @@ def sc_info_torn():
     return w.close()
 
 
-SCENARIOS = {"info_torn": sc_info_torn, "enlarged": sc_enlarged, "enlarged_while_held": sc_enlarged_while_held, "orphan_killed": sc_orphan_killed, "late_start_two": sc_late_start_two, "race_in_create": sc_race_in_create, "contention": sc_contention, "halfwritten": sc_halfwritten, "owner_dies_running": sc_owner_dies_running,
+SCENARIOS = {"larger_again": sc_larger_again, "info_torn": sc_info_torn, "enlarged": sc_enlarged, "enlarged_while_held": sc_enlarged_while_held, "orphan_killed": sc_orphan_killed, "late_start_two": sc_late_start_two, "race_in_create": sc_race_in_create, "contention": sc_contention, "halfwritten": sc_halfwritten, "owner_dies_running": sc_owner_dies_running,
              "dies_mid_create": sc_dies_mid_create, "partial_returns": sc_partial_returns, "mixed": sc_mixed}
 
 if __name__ == "__main__":
